@@ -80,7 +80,9 @@ class Ctx:
         self.module = call.fn.module
         self._locals: Optional[dict[str, list[tuple[str, ast.AST]]]] = None
         self._tcache: dict[str, Type] = {}
+        self._ecache: dict[int, Type] = {}
         self._busy: set[str] = set()
+        self._params = set(call.fn.params)
 
     # ------------------------------------------------------------ local defs
     def local_defs(self) -> dict[str, list[tuple[str, ast.AST]]]:
@@ -144,7 +146,7 @@ class Ctx:
         return defs
 
     def is_param(self, name: str) -> bool:
-        return name in self.fn.params
+        return name in self._params
 
     def self_name(self) -> Optional[str]:
         if self.fn.cls is None or self.fn.kind == "staticmethod":
@@ -169,6 +171,7 @@ class Resolver:
         self._attr_cache: dict[tuple[str, str], Type] = {}
         self._attr_busy: set[tuple[str, str]] = set()
         self._eff_cache: dict[str, Callable_] = {}
+        self._ann_cache: dict[tuple[str, int], Type] = {}
         self.unresolved_decorators: list[tuple[str, str]] = []
 
     def ctx(self, c: Callable_ | FunctionInfo) -> Ctx:
@@ -183,6 +186,16 @@ class Resolver:
     def ann_type(self, m: Module, node: Optional[ast.AST], _d: int = 0) -> Type:
         if node is None or _d > 10:
             return UNK
+        if _d == 0:
+            k = (m.name, id(node))
+            hit = self._ann_cache.get(k)
+            if hit is None:
+                hit = self._ann_type(m, node, 0)
+                self._ann_cache[k] = hit
+            return hit
+        return self._ann_type(m, node, _d)
+
+    def _ann_type(self, m: Module, node: ast.AST, _d: int) -> Type:
         if isinstance(node, ast.Constant):
             if node.value is None:
                 return T(("none",))
@@ -506,6 +519,16 @@ class Resolver:
         return UNK
 
     def type_of(self, node: ast.AST, ctx: Ctx) -> Type:
+        k = id(node)
+        hit = ctx._ecache.get(k)
+        if hit is not None:
+            return hit
+        t = self._type_of(node, ctx)
+        if not ctx._busy:
+            ctx._ecache[k] = t
+        return t
+
+    def _type_of(self, node: ast.AST, ctx: Ctx) -> Type:
         P = self.P
         if isinstance(node, ast.Constant):
             return self._const_type(node.value)
@@ -736,10 +759,7 @@ class Resolver:
             elif a[0] == "fn":
                 f = P.functions.get(a[1])
                 if f is not None:
-                    rt = self.ann_type(f.module, f.node.returns)
-                    if f.kind == "classmethod" or (f.node.returns is not None and norm(f.node.returns) in ("T", "'T'")):
-                        pass
-                    out = out | rt
+                    out = out | self.ann_type(f.module, f.node.returns)
             elif a[0] == "callable":
                 f = a[1].innermost()
                 out = out | self.ann_type(f.module, f.node.returns)
